@@ -156,3 +156,6 @@ pub proof fn lemma_empty_is_slice(input: Seq<char>, off: int, t: Seq<char>)
     assert(input.subrange(n, n + 0) =~= t);
     assert(is_slice_at(input, off, t, n));
 }
+// R14: a trim (trim_start_matches, trim, ..) applied to the raw slice: some sub-slice of it, nothing more is known
+#[verifier::external_body]
+pub fn str_some_trimmed<'a>(s: &'a str) -> (r: &'a str) ensures exists|a: int, b: int| 0 <= a <= b <= s@.len() && r@ == s@.subrange(a, b) { unimplemented!() }
